@@ -13,8 +13,10 @@ import os, subprocess, sys
 WT = os.environ.get("SENS_WT", "/tmp/wt-routes")
 VERIF = os.path.dirname(os.path.dirname(os.path.abspath(__file__)))
 SEEDED = os.path.join(VERIF, "seeded", "C02-schedule-wait-returns-on-cancel", "patch.diff")
+SEEDED2 = os.path.join(VERIF, "seeded", "C01-embed-schedules-on-errgroup-context", "patch.diff")
 
 MUT = {
+    "R10 seeded change C01-embed-schedules-on-errgroup-context (EmbedHandler schedules on an errgroup context)": "PATCH2",
     "R0 seeded change C02-schedule-wait-returns-on-cancel (scheduleRunner returns on ctx.Done)": "PATCH",
     "R1 scheduleRunner looks at errCh once, then waits on the runner channel only": ("server/routes.go", """	select {
 	case runner = <-runnerCh:
@@ -81,8 +83,8 @@ for name, m in MUT.items():
     if only and not any(name.startswith(o) for o in only):
         continue
     sh("git -C %s checkout -q -- ." % WT)
-    if m == "PATCH":
-        r = sh("git -C %s apply %s" % (WT, SEEDED))
+    if m in ("PATCH", "PATCH2"):
+        r = sh("git -C %s apply %s" % (WT, SEEDED if m == "PATCH" else SEEDED2))
         assert r.returncode == 0, r.stderr
     else:
         f, old, new = m
